@@ -12,7 +12,7 @@ PY = "/venv/bin/python"
 
 # rows the docs / corpus use with the Python wrapper switched on (list mode)
 PY_ROWS = ["N1", "N2in", "N2out", "N2inout", "B1", "B1out", "B1inout", "S1in", "S1out", "S1c", "S3in", "S3out",
-           "S3inout", "S3val", "N3in", "N3out", "N3inout", "N2ref", "N2refout", "E1"]
+           "S3inout", "S3val", "N3in", "N3out", "N3inout", "N2ref", "N2refout", "E1", "V1in"]
 PY_RESULTS = ["void", "N", "B", "C", "S1", "S3", "S3ref", "E"]
 # overload sets distinguishable by Python argument types (a Python int is accepted where a double
 # or - as bool is a subclass of int - an int is expected, so those pairs are not used)
@@ -46,7 +46,7 @@ def py_lit(p, call, op=None):
     v = ins[nm]
     if row in ("S1in", "S3in", "S3val", "S3inout"):
         return repr(v["text"])
-    if row in ("N3in", "N3inout"):
+    if row in ("N3in", "N3inout", "V1in"):
         return "[" + ", ".join(py_scalar(T, x) for x in v) + "]"
     return py_scalar(T, v)
 
@@ -206,7 +206,7 @@ def wrong_value(p):
     T, row = p["T"], p["row"]
     if row in ("K1ptr", "K1ref"):
         return "3"
-    if row in ("N3in", "N3inout"):
+    if row in ("N3in", "N3inout", "V1in"):
         return "3"
     if T in INT_TYPES:
         return "1.5"
